@@ -631,7 +631,10 @@ func c13runFwd(res *hx.Result, rng *hx.Rng, tier string, outdir string) {
 	}
 	n := 160
 	if tier == "thorough" {
-		n = 4000
+		// the state of the forwarders is read off runtime.Stack dumps of ALL goroutines, and every world leaves
+		// the mailbox goroutines of its objects behind (the implementation never ends them): the cost per
+		// sequence grows with the number of sequences played (4000 took 15 minutes, 1200 take about two)
+		n = 1200
 	}
 	if v := strings.TrimPrefix(os.Getenv("QV_C13_FWD"), "only:"); v != "" { // campaigns: number of random sequences
 		fmt.Sscanf(v, "%d", &n)
